@@ -8,12 +8,12 @@ ID = 'C04'
 LEVEL = 'exploration'
 TIERS = {'quick': 6000, 'thorough': 300000}
 RULE = ('seeded sessions of 1-6 stream operations (shell, exec_out, streaming_shell, root, list, stat, pull with/without callback, single- and '
-        'multi-WRITE push, also with a device FAIL that overtakes an OKAY, and pulls whose local destination fails mid-transfer so that the stream is closed while a device WRITE is in flight) against a strict stop-and-wait adbd model with 32-bit remote ids != local ids; a protocol monitor on the device side '
+        'multi-WRITE push, also with a device FAIL that overtakes an OKAY, and pulls whose local destination fails mid-transfer so that the stream is closed while a device WRITE is in flight; streaming_shell generators read part-way with other commands run in between; destinations that fill the OPEN payload up to (and slightly beyond) maxdata) against a strict stop-and-wait adbd model with 32-bit remote ids != local ids; a protocol monitor on the device side '
         'runs one state machine per local id with knowledge of which device packets the host has already read. non-trivial = >= 2 streams and '
         '>= 1 multi-WRITE transfer in the run; distinct = event-log digests')
 ASSUMPTIONS = ['the device stalls until the OKAY it is owed arrives, as adbd does, so a missing OKAY becomes a timeout',
                'that list/stat/pull close their stream is C08/C09\'s statement; reboot() legitimately leaves its stream open']
-EXPECT_PROBES = {'all': ['c04_multi_wrte_push', 'c04_ge_4_streams', 'empty_payload_wrte_acked', 'push_fail_sent', 'fail_before_okay', 'wrte_in_flight_at_host_close', 'recv_closed_mid_transfer', 'late_okay']}
+EXPECT_PROBES = {'all': ['c04_nested_streams', 'c04_open_fills_maxdata', 'c04_multi_wrte_push', 'c04_ge_4_streams', 'empty_payload_wrte_acked', 'push_fail_sent', 'fail_before_okay', 'wrte_in_flight_at_host_close', 'recv_closed_mid_transfer', 'late_okay']}
 KINDS = ['shell', 'exec_out', 'streaming_shell', 'root', 'list', 'stat', 'pull', 'pull', 'push', 'push']
 OWN = ('protocol', 'wrong-result', 'unexpected-exception', 'timeout-instead-of-result', 'missing-exception', 'wrong-exception', 'hang', 'no-termination',
        'unacked-write', 'clse-count')
@@ -63,6 +63,29 @@ def generate(seed, tier):
         d.pop('push_fail', None)
         scn['actors'][0].append({'op': 'push', 'src': 'bytesio', 'content': {'seed': g.int(0, 1 << 30), 'size': g.int(9000, 20000), 'alpha': 'bin'}, 'path': '/data/local/tmp/slow',
                                  'mtime': 4, 'rt': 0.25, 'tt': 0.2, 'expect_timeout': True})
+    elif c == 6:
+        # two streams alive at once in one thread: a streaming_shell generator is read part-way, other commands run, then it is
+        # finished -- the inner commands' reads take the outer stream's packets (its CLSE included) off the wire
+        name = S.add_cmd(g, d, 3000)
+        spec = d['cmds'][name]
+        if g.chance(0.5):
+            spec['cuts'] = []                   # one WRITE, then CLSE: the CLSE arrives while the inner command reads
+        inner = []
+        for _ in range(g.int(1, 2)):
+            k = g.pick(['shell', 'exec_out', 'stat', 'list'])
+            if k in ('shell', 'exec_out'):
+                inner.append({'op': k, 'cmd': S.add_cmd(g, d, 500), 'decode': g.chance(0.5)})
+            elif k == 'stat':
+                inner.append({'op': 'stat', 'path': S.add_file(g, d, 100)})
+            else:
+                inner.append({'op': 'list', 'path': S.add_dir(g, d, 4)})
+        scn['actors'][0].append({'op': 'streaming_shell', 'cmd': name, 'decode': g.chance(0.5), 'nested': inner, 'nested_after': g.pick([1, 1, 2])})
+    if g.chance(0.15) and d['maxdata'] <= 16384:
+        # destinations right up to what fits into one message of this device (OPEN payload = destination + NUL <= maxdata)
+        k = g.pick(['shell', 'exec_out', 'streaming_shell'])
+        pad = d['maxdata'] - len((('shell:' if k != 'exec_out' else 'exec:')).encode()) - 1 - g.pick([0, 0, 1, 2, 17, -1, -40])     # the last two overshoot: the library does not limit destinations; the NUL clause holds there too
+        name = S.add_cmd(g, d, 300, name='echo ' + 'x' * (pad - 5))
+        scn['actors'][0].append({'op': k, 'cmd': name, 'decode': False})
     return {'seed': seed, 'scn': scn}
 
 
@@ -92,6 +115,10 @@ def evaluate(case, tapes=None):
             shell_family = s.dest.startswith((b'shell:', b'exec:', b'root:'))
             if shell_family and s.dev_clse_read and s.host_clse_count != 1:
                 probs.append(O.P('clse-count', 'stream %d (%s): device CLSE was delivered, host sent %d CLSE' % (s.local, s.dest[:20], s.host_clse_count)))
+    if any(r.get('nested') for r in recs):
+        pr['c04_nested_streams'] = 1
+    if any(p[1] == 'OPEN' and p[4] >= dev.maxdata - 2 for p in dev.host_pkts):
+        pr['c04_open_fills_maxdata'] = 1
     if len(dev.all_streams) >= 4:
         pr['c04_ge_4_streams'] = pr.get('c04_ge_4_streams', 0) + 1
     out['violations'] = [p for p in probs if p[0] in OWN]
